@@ -135,7 +135,10 @@ def run(pid, tier, seed, replay=None):
     for name in (mc_plan[0] if quick else mc_plan[0] + mc_plan[1]):
         # the action properties are checked on the 4- and 5-referent configurations; the large ones (6 referents, and
         # the rootless one, whose orphan can be destroyed and moved) check the invariants
-        with_props = PROPS if (quick or (MC[name]["MaxRef"] <= 5 and name != "rootless5")) else ""
+        # the quick configurations are checked with the action properties in both tiers; the larger configurations the
+        # thorough tier adds check the invariants (with the action properties a 5-referent configuration with Ref
+        # properties does not finish within an hour on a busy machine)
+        with_props = PROPS if name in mc_plan[0] else ""
         r = model_check(name, with_props, workers, timeout=3000 if quick else 14400)
         v = tlc_violation(r)
         if v:
